@@ -177,6 +177,9 @@ pub struct Model {
     pub had_write_after_raw: bool,
     pub chaos: bool,
     pub appended: bool,
+    /// number of entries whose content was final when the first call failed (R6: they must survive
+    /// whatever the failed call and its successors do)
+    pub frozen: Option<usize>,
 }
 
 pub const RESERVED_IDS: [u16; 49] = [
@@ -223,7 +226,7 @@ fn st_code(s: St) -> u8 {
 
 impl Model {
     pub fn new(cfg: ModelCfg) -> Model {
-        Model { st: St::Idle, entries: vec![], comment: vec![], buf: vec![], cfg, lenient: false, complete: false, finish_ok: false, reached: vec![], had_write_after_raw: false, chaos: false, appended: false }
+        Model { st: St::Idle, entries: vec![], comment: vec![], buf: vec![], cfg, lenient: false, complete: false, finish_ok: false, reached: vec![], had_write_after_raw: false, chaos: false, appended: false, frozen: None }
     }
 
     fn opts_supported(&self, o: &Opts) -> bool {
@@ -414,6 +417,18 @@ impl Model {
     /// Apply one executed step. `src` resolves raw-copy sources. Returns a mismatch if the actual
     /// result contradicts the model's expectation.
     pub fn step(&mut self, op: &Op, step: &Step, src: &dyn Fn(usize, usize, u8) -> Option<SrcEntry>) -> Result<(), Mismatch> {
+        let st_before = self.st;
+        let n_before = self.entries.len();
+        let was_lenient = self.lenient;
+        let r = self.step_inner(op, step, src);
+        if self.lenient && !was_lenient {
+            let open_last = matches!(st_before, St::InFile | St::InExtra { .. });
+            self.frozen = Some(n_before.saturating_sub(open_last as usize));
+        }
+        r
+    }
+
+    fn step_inner(&mut self, op: &Op, step: &Step, src: &dyn Fn(usize, usize, u8) -> Option<SrcEntry>) -> Result<(), Mismatch> {
         // harness-level failures (source archive did not open) do not touch the writer
         if let Res::Err(e) = &step.res {
             if e.starts_with("Source/") || e == "NoWriter" {
@@ -688,6 +703,7 @@ impl Model {
                 self.buf.clear();
                 self.finish_ok = false;
                 self.lenient = false;
+                self.frozen = None;
                 self.appended = true;
                 // entries of earlier lifetimes are re-emitted from the parsed directory: the extra-data
                 // placement oracle (C17) speaks of freshly written entries only
